@@ -14,7 +14,7 @@ def unhexStr (s : String) : Option String :=
 def expectedSig (d : MachineDesc) (isaOf : CpuModel → Byte → Bool) (ioAddr : List (Nat × List Char)) : String :=
   let isa := String.join ((List.range 256).map fun n => if isaOf d.cpu (BitVec.ofNat 8 n) then "1" else "0")
   -- ports: five probe bytes to each port in key order; each port has its own counter
-  let probe : List Nat := [0x41, 0xC1, 0x0A, 0x7B, 0x30]
+  let probe : List Nat := (List.range 260).map fun i => (i * 7 + 3) % 256
   let sorted := (ioAddr.map (·.1)).mergeSort (fun a b => decide (a ≤ b))
   let out := sorted.flatMap fun k => match ioAddr.find? (·.1 == k) with
     | some (_, s) => match parsePort s with | some p => portOutput p probe | none => []
